@@ -101,11 +101,21 @@ func (p *pump) start() {
 }
 
 // take waits until n bytes are buffered, the reader ended, or the deadline passed.
+// take waits for n bytes.  It gives up after d WITHOUT PROGRESS, not after d in all: a disk reader sleeps 10 ms at every segment
+// boundary, so a read across many small segments legitimately takes long (a verdict must not rest on that).
 func (p *pump) take(n int, d time.Duration) ([]byte, bool) {
+	if d < 600*time.Millisecond {
+		d = 600 * time.Millisecond
+	}
 	deadline := time.Now().Add(d)
 	p.mu.Lock()
 	defer p.mu.Unlock()
+	last := len(p.buf)
 	for len(p.buf) < n && p.err == nil {
+		if len(p.buf) != last {
+			last = len(p.buf)
+			deadline = time.Now().Add(d)
+		}
 		if time.Now().After(deadline) {
 			break
 		}
